@@ -224,7 +224,11 @@ func (d *Decoder) readTypedList(tag byte) (interface{}, error) {
 
 	aryType, ok := d.typMap[listTyp]
 	if !ok {
-		return nil, newCodecError("readTypedList", "can't find list type %s", listTyp)
+		if d.skipping == 0 {
+			return nil, newCodecError("readTypedList", "can't find list type %s", listTyp)
+		}
+		// inside a skipped value: read generically
+		aryType = reflect.TypeOf([]interface{}{})
 	}
 
 	// a long declared length is not trusted for allocation: such a list grows
